@@ -2,7 +2,7 @@
 # Runs every check (the 20 listed properties, the API-model check and the extension modules) once on the unchanged tree.
 #   tools/sweep.sh [quick|thorough] [seed]          exit 0 iff every check exited 0
 tier=${1:-quick}; seed=${2:-1}; cd "$(dirname "$0")/.." || exit 2; bad=0
-for c in C01 C02 C03 C04 C05 C06 C07 C08 C09 C10 C11 C12 C13 C14 C15 C16 C17 C18 C19 C20 KUBEAPI X01 X02 X03 X04 X05 X06 X07; do
+for c in C01 C02 C03 C04 C05 C06 C07 C08 C09 C10 C11 C12 C13 C14 C15 C16 C17 C18 C19 C20 KUBEAPI X01 X02 X03 X04 X05 X06 X07 X08 X09 X10 X11 X12; do
   [ -f "checks/$(echo $c | tr A-Z a-z).py" ] || continue
   VERIF_SEED=$seed ./check $c --tier $tier > .work/sweep_$c.out 2>&1; rc=$?
   printf "%s rc=%s  %s\n" "$c" "$rc" "$(tail -1 .work/sweep_$c.out)"
